@@ -10,3 +10,8 @@ pub use lua_parser::LuaParser;
 pub use marker::*;
 #[allow(unused)]
 pub use parser_config::{ParserConfig, SpecialFunction};
+
+#[cfg(emmyluals_emmylua_analyzer_rust_verif)]
+pub(crate) fn verif_max_nesting_level() -> usize {
+    lua_parser::MAX_NESTING_LEVEL
+}
